@@ -475,6 +475,35 @@ func checkC18(c *ctx) {
 	c.Assumptions = append(c.Assumptions, "the poll points themselves are not observable without editing the merge; the model (Cancel.v) quantifies over every placement of polls and of the close")
 	savedBuf := zap.DefaultFileMergerBufferSize
 	defer func() { zap.DefaultFileMergerBufferSize = savedBuf }()
+	// the segment API's Merge method on ONE persisted and re-opened segment with nothing deleted (the
+	// shape of a compaction), channel closed before the call
+	for k := 0; k < c.n(3, 20); k++ {
+		sb, _, err := zh.Build(zh.GenBatch(c.R, zh.RandOpts(c.R, 2+c.R.Intn(8), "p")), randMode(c))
+		must(err)
+		seg, ipath, err := zh.PersistOpen(sb)
+		must(err)
+		for _, bm := range []*roaring.Bitmap{nil, roaring.New()} {
+			for _, capacity := range []int{0, 4} {
+				ch := make(chan struct{}, capacity)
+				close(ch)
+				path := zh.TmpPath("c18pub")
+				_, _, merr := zh.Plugin.Merge([]segment.Segment{seg}, []*roaring.Bitmap{bm}, path, ch, nil)
+				left := exists(path)
+				os.Remove(path)
+				c.Case(fmt.Sprintf("pre-public-%d-%v-%d", k, bm == nil, capacity), true)
+				c.Count("pre_closed_public_single_merges")
+				if merr != segment.ErrClosed || left {
+					seg.Close()
+					os.Remove(ipath)
+					c.Violation(fmt.Sprintf("C18 close channel (capacity %d) closed before the call of the segment API's Merge method on ONE persisted and re-opened segment (deletion bitmap nil=%v, else empty): returned %v, file left=%v; want the closed error and no file", capacity, bm == nil, merr, left), false)
+					return
+				}
+			}
+		}
+		seg.Close()
+		os.Remove(ipath)
+		sb.Close()
+	}
 	wideSets := c.n(12, 60)
 	nIn := c.n(5, 80) + wideSets
 	for i := 0; i < nIn; i++ {
@@ -539,6 +568,7 @@ func checkC18(c *ctx) {
 		runNo := 0
 		light, lightN := wide, 0
 		chanCap := 0
+		closeAfter := false
 		unlinkOnClose := false
 		var asyncDelay time.Duration = -1 // >= 0: a second goroutine closes the channel after this delay
 		run := func(k uint64, pre bool) string {
@@ -585,6 +615,15 @@ func checkC18(c *ctx) {
 				}()
 				maps, _, merr = zap.VerifMerge(segs, mc.bitmaps(), path, mc.mode, ch, cl)
 			}()
+			if merr == nil && closeAfter {
+				// the caller closes the channel only after Merge has reported success (an index being
+				// shut down later): the file must stay
+				close(ch)
+				time.Sleep(3 * time.Millisecond)
+				if !exists(path) {
+					return "Merge reported success; the close channel was closed afterwards and the file disappeared"
+				}
+			}
 			switch {
 			case merr == segment.ErrClosed:
 				if exists(path) {
@@ -657,6 +696,16 @@ func checkC18(c *ctx) {
 			}
 		}
 		chanCap = 0
+		// never closed while the merge runs, closed right after it reported success
+		closeAfter = true
+		for rep := 0; rep < 2; rep++ {
+			if bad := run(1<<62, false); bad != "" {
+				c.Violation(fmt.Sprintf("C18 close channel closed only after the merge had returned\n%s\n%s", bad, clip(mc.describe())), false)
+				return
+			}
+			c.Count("closes_after_success")
+		}
+		closeAfter = false
 		c.Case(fmt.Sprintf("pre-%d", i), true)
 		a := ask(c, sx.L(sx.N(zh.ReqCancel), sx.N(0), sx.Nums(evs)))
 		if len(a.L) != 0 {
@@ -707,11 +756,11 @@ func checkC18(c *ctx) {
 		unlinkOnClose = false
 		// the channel closed by another goroutine at an arbitrary moment (also between two writes)
 		trials := c.n(60, 250)
-		if wide {
-			trials = 10
-		}
 		if c.proofBroken("tie_poll_discipline") {
 			trials = 3000
+		}
+		if wide {
+			trials = trials / 12
 		}
 		for t := 0; t < trials; t++ {
 			asyncDelay = time.Duration(c.R.Intn(int(mergeTime)*5/4 + 1))
